@@ -872,6 +872,8 @@ func (v *FnVC) panicInstr(x *ssa.Panic) {
 	v.runAnchored("panic#"+strconv.Itoa(v.panicCnt), x.Pos(), map[string]Term{"panic_value": v.val(x.X)})
 	v.behavClause = false
 	v.oblige("unreachable-panic", strconv.Itoa(v.panicCnt), or(allowed...), nil, !v.fc.Partial, "explicit panic must be unreachable (or allowed by panics-when)", x.Pos())
+	// the function's exceptional postconditions hold when it raises the panic itself
+	v.panicPath("panic#"+strconv.Itoa(v.panicCnt), x.Pos(), func() {})
 }
 
 func (v *FnVC) runDefers(x *ssa.RunDefers) {
